@@ -29,6 +29,9 @@ def box(name):
         return dict(fam=B(2, 'xy', 2, 2, render='tok'), alpha='xy', lexers=('basic', 'dynamic'))
     if name == 'dc':
         return dict(fam=B(2, 'pq', 2, 2, render=AMB), alpha='a', lexers=('dynamic_complete',))
+    if name == 'ig':        # %ignore " " next to terminals that start with / can match the ignored character (dynamic lexers)
+        from .c01 import AB_SP, WS
+        return dict(fam=B(2, 'abcd', (2, 1), 2, render=AB_SP, ignore=('WS',), extra_terms=(WS,)), alpha='ab ', lexers=('dynamic', 'dynamic_complete'))
     if name == 'long':
         return dict(fam=B(2, 'x', (1, 2), (4, 2), render='tok'), alpha='x', lexers=('basic', 'dynamic'))
     if name == 'k3':
@@ -37,8 +40,8 @@ def box(name):
 
 
 TIERS = {
-    'quick': [('x1', 1, 4), ('dc', 8, 4), ('x2', 16, 4), ('long', 4, 4)],
-    'thorough': [('x1', 1, 5), ('dc', 1, 4), ('x2', 1, 4), ('long', 1, 5), ('k3', 8, 4)],
+    'quick': [('x1', 1, 4), ('dc', 8, 4), ('x2', 16, 4), ('long', 4, 4), ('ig', 16, 4)],
+    'thorough': [('x1', 1, 5), ('dc', 1, 4), ('x2', 1, 4), ('long', 1, 5), ('k3', 8, 4), ('ig', 1, 4)],
 }
 
 
@@ -198,7 +201,11 @@ def check(g, gi, boxname, b, inputs, res, only=None):
                 res['nontrivial'] += 1
             amb = util.timed(lambda: root.is_ambiguous)
             if len(D) == 1 and amb[0] == 'ok' and amb[1]:
-                bad('is_ambiguous', 'is_ambiguous', 'root.is_ambiguous is False (single derivation)', True)
+                # cause predicate of the known finding (on the case): dynamic lexer, %ignore'd text actually present in the input
+                # -- a sub-derivation is recorded with and without the adjacent ignored text in its span
+                dup = bool(g.ignore) and lexer.startswith('dynamic') and ' ' in w
+                bad('is_ambiguous', 'is_ambiguous-derivation-duplicated-around-ignored-text' if dup else 'is_ambiguous',
+                    'root.is_ambiguous is False (single derivation)', True)
             wr, _ = out['TreeForestTransformer(all)']
             if wr[0] == 'ok':
                 cr = util.timed(lambda: CollapseAmbiguities().transform(wr[1]), 20)
